@@ -9,13 +9,12 @@ import Tahoe.Identity.Lemmas
     | two file or directory **node** objects compare equal exactly when their capability strings are equal | `eq_iff_same_string` (node/node case: all 5 node classes × 5, incl. cross-class), `cross_class_unequal`, `eq_reflexive`, `eq_symmetric`, `eq_transitive` |
     | two **capability** objects compare equal exactly when their capability strings are equal | `eq_iff_same_string` (cap/cap case: the 18 `_BaseURI` subclasses and `UnknownURI`, incl. cross-class; prefix-freeness of the class prefixes is proved from the extracted constants: `Identity/Lemmas.lean toString_inj`) |
     | inequality is always the negation of equality | `ne_is_not_eq` — for *every* pair of objects (same class, cross class, node vs cap, unrelated `object`s), through the full operator protocol (`NotImplemented`, reflected call, identity fallback); `eqMethod_total` shows why `not self.__eq__(x)` and `not (self == x)` coincide for the code as it is |
-    | equal objects hash equally | `eq_implies_hash_eq` (every interpretation of CPython's hash functions), `hash_depends_only_on_class_and_caps` |
+    | equal objects hash equally | `eq_implies_hash_eq` (every interpretation of CPython's hash functions), `hash_depends_only_on_class_and_caps`; that `hash()` evaluates at all, for every class: `equal_objects_hashable` (`unknownnode_unhashable_counterexample` documents the code before `UnknownNode.__hash__` was added) |
     | (quantifier) every cap kind wrapped in every node class | the theorems quantify over all `Obj`; which (class, cap kind) combinations exist is `WF`; `uri_classes_pinned`, `prefixes_pinned`, `dunder_owners_pinned` tie the class list, the prefixes and the method owners to the source |
     | independence of what was done to the objects before (lazy caches; seeded change C43-b) | by construction: the model is a pure function of (class, id, strings); the *implementation* side of this is correspondence + monitor only (usage states in harness/props/c43.py) |
 
     Not covered by a theorem: that `to_string()` of a cap is a function of its fields and vice versa (C15's
-    subject; here a cap *is* its string), `CiphertextFileNode`/`ProhibitedNode` (outside the model), and
-    hashability of `UnknownNode` (it is unhashable; `eq_implies_hash_eq` is about `hash()` results incl. "raises").
+    subject; here a cap *is* its string), `CiphertextFileNode`/`ProhibitedNode` (outside the model).
 
     The theorems are about `Variant.fixed` = the code in /repo (the three C43 fixes are committed); the
     `shipped_*_counterexample` theorems document the three defects of the originally shipped code. -/
@@ -65,7 +64,7 @@ example : IdConsistent (.dirNode 1 ⟨.dir2, [97]⟩) (.other 7)
   intro h; simp [Obj.id] at h
 
 /-- Equal objects hash equally — under every interpretation of CPython's `hash` of bytes, of `None`, of an
-    address and of a tuple; an `UnknownNode` is unhashable (`none` on both sides: `hash()` raises for both). -/
+    address and of a tuple; (`none` = `hash()` raises does not occur any more: `equal_objects_hashable`). -/
 theorem eq_implies_hash_eq (I : HashInterp) (a b : Obj) (hid : IdConsistent a b)
     (h : pyEq .fixed a b = true) :
     (hashMethod .fixed a).map I.eval = (hashMethod .fixed b).map I.eval := by
@@ -140,6 +139,16 @@ theorem hash_depends_only_on_class_and_caps (a b : Obj) (hc : a.ctorIdx = b.ctor
 example : hashMethod .fixed (.dirNode 1 ⟨.dir2, [5]⟩) = hashMethod .fixed (.dirNode 9 ⟨.dir2, [5]⟩)
     ∧ hashMethod .fixed (.dirNode 1 ⟨.dir2, [5]⟩) ≠ hashMethod .fixed (.mutNode 1 ⟨.dir2, [5]⟩) := by decide
 
+/-- Every object can be hashed: `hash()` evaluates for every cap and node class (`UnknownNode` included since
+    `UnknownNode.__hash__` was added), so `eq_implies_hash_eq` always compares two actual hash values and equal
+    objects can be set members and dict keys. -/
+theorem equal_objects_hashable (a : Obj) : (hashMethod .fixed a).isSome = true := by
+  cases a <;> simp [hashMethod]
+
+example : (hashMethod .fixed (.litNode 1 ⟨.lit, [7]⟩)).isSome = true
+    ∧ hashMethod .fixed (.unknownNode 1 none (some [7])) = hashMethod .fixed (.unknownNode 2 none (some [7]))
+    ∧ hashMethod .fixed (.unknownNode 1 none (some [7])) ≠ hashMethod .fixed (.unknownNode 2 (some [7]) none) := by decide
+
 /-! ### the code as shipped: concrete counterexamples (each is one of the findings reproduced on the
     real objects by harness/props/c43.py) -/
 
@@ -158,6 +167,12 @@ theorem shipped_dirnode_counterexample :
     let a := Obj.dirNode 1 ⟨.dir2Chk, [97]⟩
     let b := Obj.dirNode 2 ⟨.dir2Chk, [97]⟩
     WF a ∧ WF b ∧ caps a = caps b ∧ pyEq .shipped a b = false := by decide
+
+/-- before `UnknownNode.__hash__` was added (`Variant.shipped`): two equal `UnknownNode`s, `hash()` raises for both -/
+theorem unknownnode_unhashable_counterexample :
+    let a := Obj.unknownNode 1 none (some [7])
+    let b := Obj.unknownNode 2 none (some [7])
+    WF a ∧ WF b ∧ pyEq .shipped a b = true ∧ hashMethod .shipped a = none ∧ hashMethod .shipped b = none := by decide
 
 /-- shipped `UnknownURI` defines no `__eq__`: `from_string(s) == from_string(s)` is false for an
     unknown-format `s`. -/
@@ -182,7 +197,7 @@ theorem prefixes_pinned :
        "URI:DIR2-Verifier:", "URI:DIR2-CHK-Verifier:"] := by decide
 
 /-- which class of the MRO provides the comparison methods (classes not touched by the proposed fixes):
-    all cap classes inherit the three methods of `_BaseURI`; `UnknownNode` has `__hash__ = None`. -/
+    all cap classes inherit the three methods of `_BaseURI`; `UnknownNode` provides all three itself. -/
 theorem dunder_owners_pinned :
     Identity.URI_SUBCLASS_DUNDER_OWNERS = ["_BaseURI/_BaseURI/_BaseURI"]
       ∧ (Identity.EQ_OWNER_ImmutableFileNode, Identity.NE_OWNER_ImmutableFileNode, Identity.HASH_OWNER_ImmutableFileNode)
@@ -192,6 +207,6 @@ theorem dunder_owners_pinned :
       ∧ (Identity.EQ_OWNER_MutableFileNode, Identity.NE_OWNER_MutableFileNode, Identity.HASH_OWNER_MutableFileNode)
           = ("MutableFileNode", "MutableFileNode", "MutableFileNode")
       ∧ (Identity.EQ_OWNER_UnknownNode, Identity.NE_OWNER_UnknownNode, Identity.HASH_OWNER_UnknownNode)
-          = ("UnknownNode", "UnknownNode", "None") := by decide
+          = ("UnknownNode", "UnknownNode", "UnknownNode") := by decide
 
 end Tahoe.C43
